@@ -134,6 +134,23 @@ class CoroutineProcessor(Processor):
         if state != CoroutineState.TERMINATED:
             raise ValueError('Cannot start the same generator twice')
 
+        # A kill is pending: the generator is still queued. Cancel the
+        # kill and resume the coroutine, instead of queueing it twice
+        if generator in self._kill_queue:
+            self._kill_queue.discard(generator)
+            waiting_gen = self._generators[generator]
+            if waiting_gen is not None:
+                index = next(i for i, waiting in enumerate(self._wait_queue)
+                             if waiting is waiting_gen)
+                del self._wait_queue[index]
+                heapq.heapify(self._wait_queue)
+                self._active_queue.append(generator)
+                self._generators[generator] = None
+
+            promise = CoroutinePromise(generator, self)
+            self._promises[generator] = promise
+            return promise
+
         self._active_queue.append(generator)
         self._generators[generator] = None
         promise = CoroutinePromise(generator, self)
